@@ -89,6 +89,17 @@ Definition frozen_old (k : bkind) (enum : mballot -> list nat) (b : mballot) : f
   | _ => mkF k (content b) (b_name b) (b_meta b)
   end.
 
+(* FrozenApprovalBallot.__new__(approved): an UNORDERED collection (set / frozenset -- in particular an ApprovalBallot)
+   is sorted by name, exactly as ApprovalBallot.frozen() does (repair 48c2140); a sequence (list, tuple, another frozen
+   ballot) is taken in the order it is given.  Before the repair a set was frozen in its iteration order. *)
+Definition frozen_app_new (unordered : bool) (approved : list nat) (name meta : nat) : fballot :=
+  mkF KApp (zero_items (if unordered then isort Nat.leb approved else approved)) name meta.
+(* FrozenApprovalBallot(ballot): name and meta are taken from the ballot *)
+Definition frozen_app_of_ballot (enum : mballot -> list nat) (b : mballot) : fballot :=
+  frozen_app_new true (enum b) (b_name b) (b_meta b).
+Definition frozen_app_of_ballot_old (enum : mballot -> list nat) (b : mballot) : fballot :=
+  frozen_app_new false (enum b) (b_name b) (b_meta b).
+
 Definition is_tuple (k : bkind) : bool := match k with KApp | KOrd => true | _ => false end.
 
 Fixpoint nlist_eqb (l1 l2 : list nat) : bool :=
